@@ -29,6 +29,15 @@ def table_inputs():
         out += ["&#%s;" % n, "&#%s" % n]
     for n in (1, 2, 3, 4, 5, 6, 7, 254, 255, 256, 257):
         out += ["{" * n + "a" + "}" * n, "{" * n + "a", "{" * n + "a|b=c" + "}" * n, "[" * n + "a" + "]" * n]
+    # brace runs around the depth limit (F18): single runs, chained runs, runs under other constructs
+    for dd in list(range(94, 104)) + [126, 127, 128, 200, 400]:
+        out += ["{{" * dd + "a" + "}}" * dd, "{{{" * dd + "a" + "}}}" * dd, "{{{{{" * (dd // 2) + "a|b" + "}}}}}" * (dd // 2)]
+    for k in (2, 3, 5, 10):
+        for w in (30, 60, 127):
+            out += [("{{" * w + "a|") * k + "b" + "}}" * (w * k)]
+    for pre in ("[[a|", "<b>", "''", "{{x|", "{{x|y="):
+        for dd in (50, 98, 99, 100):
+            out += [pre * dd + "{{" * 60 + "a" + "}}" * 60]
     for lvl in range(1, 9):
         out += ["=" * lvl + " h " + "=" * lvl, "=" * lvl + "h" + "=" * (lvl + 1) + "\n", "\n" + "=" * lvl + "=\n"]
     return out
